@@ -437,6 +437,34 @@ Proof. exact glsl_bitcast_f32_i32_correct. Qed.
 Theorem c05_bitcast_f32_u32_correct : forall es a, teval es (t_call1 "floatBitsToUint") (e1 (VF32 a)) = Done (VU32 a).
 Proof. exact glsl_bitcast_f32_u32_correct. Qed.
 
+(* vector shapes: the component-wise templates against the IR meaning (Values.lift2 of the scalar meaning) *)
+Theorem c05_add_i32_vec_correct : forall es a la b lb, teval es (t_bin BAdd) (e2 (VVec (ints (a :: la))) (VVec (ints (b :: lb)))) = lift2 (arith_scalar OAdd) (VVec (ints (a :: la))) (VVec (ints (b :: lb))).
+Proof. exact glsl_add_i32_vec_correct. Qed.
+
+Theorem c05_sub_i32_vec_correct : forall es a la b lb, teval es (t_bin BSub) (e2 (VVec (ints (a :: la))) (VVec (ints (b :: lb)))) = lift2 (arith_scalar OSub) (VVec (ints (a :: la))) (VVec (ints (b :: lb))).
+Proof. exact glsl_sub_i32_vec_correct. Qed.
+
+Theorem c05_mul_i32_vec_correct : forall es a la b lb, teval es (t_bin BMul) (e2 (VVec (ints (a :: la))) (VVec (ints (b :: lb)))) = lift2 (arith_scalar OMul) (VVec (ints (a :: la))) (VVec (ints (b :: lb))).
+Proof. exact glsl_mul_i32_vec_correct. Qed.
+
+Theorem c05_div_i32_vec_correct : forall es a la b lb, (forall p q, In (p, q) (combine (a :: la) (b :: lb)) -> in32 p /\ in32 q /\ defined_div_i32 p q) ->
+  teval es (t_bin BDiv) (e2 (VVec (ints (a :: la))) (VVec (ints (b :: lb)))) = lift2 (arith_scalar ODiv) (VVec (ints (a :: la))) (VVec (ints (b :: lb))).
+Proof. exact glsl_div_i32_vec_correct. Qed.
+
+Theorem c05_rem_i32_vec_correct : forall es a la b lb, (forall p q, In (p, q) (combine (a :: la) (b :: lb)) -> in32 p /\ in32 q /\ defined_rem_i32 p q) ->
+  teval es (t_bin BMod) (e2 (VVec (ints (a :: la))) (VVec (ints (b :: lb)))) = lift2 (arith_scalar ORem) (VVec (ints (a :: la))) (VVec (ints (b :: lb))).
+Proof. exact glsl_rem_i32_vec_correct. Qed.
+
+Theorem c05_add_u32_vec_correct : forall es a la b lb, teval es (t_bin BAdd) (e2 (VVec (uints (a :: la))) (VVec (uints (b :: lb)))) = lift2 (arith_scalar OAdd) (VVec (uints (a :: la))) (VVec (uints (b :: lb))).
+Proof. exact glsl_add_u32_vec_correct. Qed.
+
+Theorem c05_mul_u32_vec_correct : forall es a la b lb, teval es (t_bin BMul) (e2 (VVec (uints (a :: la))) (VVec (uints (b :: lb)))) = lift2 (arith_scalar OMul) (VVec (uints (a :: la))) (VVec (uints (b :: lb))).
+Proof. exact glsl_mul_u32_vec_correct. Qed.
+
+Theorem c05_div_u32_vec_correct : forall es a la b lb, (forall p q, In (p, q) (combine (a :: la) (b :: lb)) -> defined_div_u32 p q) ->
+  teval es (t_bin BDiv) (e2 (VVec (uints (a :: la))) (VVec (uints (b :: lb)))) = lift2 (arith_scalar ODiv) (VVec (uints (a :: la))) (VVec (uints (b :: lb))).
+Proof. exact glsl_div_u32_vec_correct. Qed.
+
 (* the regenerated table of what naga emits today is inside the catalogue (or a listed refuted template) *)
 Theorem c05_gen_table_in_catalogue : forallb classified Naga.Gen.GlslOpTable.table = true.
 Proof. exact gen_table_in_catalogue. Qed.
@@ -444,7 +472,15 @@ Proof. exact gen_table_in_catalogue. Qed.
 (* One Print Assumptions for all statements above (printing it per theorem costs more than a second each, the
    closure being the Flocq development): the axioms are those of Flocq/Reals, reached through Base/F32.v, to which the
    GLSL evaluator refers for its floating-point leaves.  The integer leaf lemmas do not depend on them: *)
-Definition c05_all_theorems := (c05_add_i32_correct,
+Definition c05_all_theorems := (c05_add_i32_vec_correct,
+  c05_sub_i32_vec_correct,
+  c05_mul_i32_vec_correct,
+  c05_div_i32_vec_correct,
+  c05_rem_i32_vec_correct,
+  c05_add_u32_vec_correct,
+  c05_mul_u32_vec_correct,
+  c05_div_u32_vec_correct,
+  c05_add_i32_correct,
   c05_add_u32_correct,
   c05_add_f32_correct,
   c05_sub_i32_correct,
